@@ -16,7 +16,7 @@ namespace XotModel
 def KeepsUndecl (a b : List (Nat × Nat)) : Prop :=
   ∀ kv ∈ b, kv.2 = Env.noNamespace → kv ∈ a
 
-/-- Pointwise `KeepsUndecl` over the per-node declaration lists (`declsOf`). -/
+/-- Pointwise `KeepsUndecl` over the per-node declaration lists (`declsOfTree`). -/
 inductive AllKeep : List (List (Nat × Nat)) → List (List (Nat × Nat)) → Prop
   | nil : AllKeep [] []
   | cons {a b : List (Nat × Nat)} {as bs : List (List (Nat × Nat))} :
@@ -51,14 +51,14 @@ theorem AllKeep.get {a b : List (List (Nat × Nat))} (h : AllKeep a b) (i : Nat)
     | succ j => exact ih j (by simpa using hx) (by simpa using hy)
 
 theorem declsOfList_eraseKids (decls : List (Nat × Nat)) (toRemove : List Nat) (ks : List Tree) :
-    declsOf.declsOfList (eraseKids decls toRemove ks) = declsOf.declsOfList ks := by
-  apply eraseKids_induction (P := fun l => declsOf.declsOfList l = declsOf.declsOfList ks)
+    declsOfTree.declsOfList (eraseKids decls toRemove ks) = declsOfTree.declsOfList ks := by
+  apply eraseKids_induction (P := fun l => declsOfTree.declsOfList l = declsOfTree.declsOfList ks)
   · intro p ns _ _ l hl; rw [declsOfList_removeNsKid]; exact hl
   · rfl
 
 mutual
 theorem rb_keeps (env : Env) : ∀ (x : Tree) (top : List (Nat × Nat)) (tr : Tracker),
-    UniqueDeclsBelow x → AllKeep (declsOf (rbWalk env top x tr).2) (declsOf x)
+    UniqueDeclsBelow x → AllKeep (declsOfTree (rbWalk env top x tr).2) (declsOfTree x)
   | .node v ks, top, tr, hu => by
     have hkids := fun (top : List (Nat × Nat)) (tr : Tracker) =>
       rb_keeps_list env ks top tr (fun i k hk => hu.kid hk)
@@ -66,27 +66,27 @@ theorem rb_keeps (env : Env) : ∀ (x : Tree) (top : List (Nat × Nat)) (tr : Tr
     | element name =>
       have hnd : ((declsOfKids ks).map Prod.fst).Nodup := by
         simpa [nsDecls_node] using hu.self (t := .node (.element name) ks) rfl
-      simp only [rbWalk, nsDecls_node, eraseOwn_node, declsOf, declsOfList_eraseKids]
+      simp only [rbWalk, nsDecls_node, eraseOwn_node, declsOfTree, declsOfList_eraseKids]
       refine .cons ?_ (hkids _ _)
       intro kv hkv h0
       refine (eraseKids_facts env [] (.element name) ks _ _ (rb_values env ks _ _) hnd).2.1 kv hkv ?_
       intro hin
       exact (mem_dedupToRemove.1 hin).2.1 h0
-    | document => simp only [rbWalk, declsOf, nsDecls_node, declsOfKids_congr _ ks (rb_values env ks _ _)]; exact .cons (fun _ h _ => h) (hkids _ _)
-    | text s => simp only [rbWalk, declsOf, nsDecls_node, declsOfKids_congr _ ks (rb_values env ks _ _)]; exact .cons (fun _ h _ => h) (hkids _ _)
-    | pi a b => simp only [rbWalk, declsOf, nsDecls_node, declsOfKids_congr _ ks (rb_values env ks _ _)]; exact .cons (fun _ h _ => h) (hkids _ _)
-    | comment s => simp only [rbWalk, declsOf, nsDecls_node, declsOfKids_congr _ ks (rb_values env ks _ _)]; exact .cons (fun _ h _ => h) (hkids _ _)
-    | «attribute» a b => simp only [rbWalk, declsOf, nsDecls_node, declsOfKids_congr _ ks (rb_values env ks _ _)]; exact .cons (fun _ h _ => h) (hkids _ _)
-    | «namespace» a b => simp only [rbWalk, declsOf, nsDecls_node, declsOfKids_congr _ ks (rb_values env ks _ _)]; exact .cons (fun _ h _ => h) (hkids _ _)
+    | document => simp only [rbWalk, declsOfTree, nsDecls_node, declsOfKids_congr _ ks (rb_values env ks _ _)]; exact .cons (fun _ h _ => h) (hkids _ _)
+    | text s => simp only [rbWalk, declsOfTree, nsDecls_node, declsOfKids_congr _ ks (rb_values env ks _ _)]; exact .cons (fun _ h _ => h) (hkids _ _)
+    | pi a b => simp only [rbWalk, declsOfTree, nsDecls_node, declsOfKids_congr _ ks (rb_values env ks _ _)]; exact .cons (fun _ h _ => h) (hkids _ _)
+    | comment s => simp only [rbWalk, declsOfTree, nsDecls_node, declsOfKids_congr _ ks (rb_values env ks _ _)]; exact .cons (fun _ h _ => h) (hkids _ _)
+    | «attribute» a b => simp only [rbWalk, declsOfTree, nsDecls_node, declsOfKids_congr _ ks (rb_values env ks _ _)]; exact .cons (fun _ h _ => h) (hkids _ _)
+    | «namespace» a b => simp only [rbWalk, declsOfTree, nsDecls_node, declsOfKids_congr _ ks (rb_values env ks _ _)]; exact .cons (fun _ h _ => h) (hkids _ _)
 theorem rb_keeps_list (env : Env) : ∀ (ks : List Tree) (top : List (Nat × Nat)) (tr : Tracker),
     (∀ (i : Nat) (k : Tree), ks[i]? = some k → UniqueDeclsBelow k) →
-    AllKeep (declsOf.declsOfList (rbWalk.rbList env top ks tr).2) (declsOf.declsOfList ks)
-  | [], top, tr, _ => by simpa [rbWalk.rbList, declsOf.declsOfList] using AllKeep.nil
+    AllKeep (declsOfTree.declsOfList (rbWalk.rbList env top ks tr).2) (declsOfTree.declsOfList ks)
+  | [], top, tr, _ => by simpa [rbWalk.rbList, declsOfTree.declsOfList] using AllKeep.nil
   | k :: ks, top, tr, hu => by
     have h1 := rb_keeps env k top tr (hu 0 k rfl)
     have h2 := rb_keeps_list env ks top (rbWalk env top k tr).1
       (fun i k' hk => hu (i + 1) k' (by simpa using hk))
-    simp only [rbWalk.rbList, declsOf.declsOfList, rb_value env k top tr]
+    simp only [rbWalk.rbList, declsOfTree.declsOfList, rb_value env k top tr]
     split
     · exact h2
     · exact h1.append h2
@@ -95,28 +95,28 @@ end
 /-! ### Down the path of an inner call -/
 
 theorem keep_modify (g : Tree → Tree) : ∀ (l : List Tree) (i : Nat) (k : Tree), l[i]? = some k →
-    (g k).value = k.value → AllKeep (declsOf (g k)) (declsOf k) →
+    (g k).value = k.value → AllKeep (declsOfTree (g k)) (declsOfTree k) →
     declsOfKids (l.modify i g) = declsOfKids l ∧
-      AllKeep (declsOf.declsOfList (l.modify i g)) (declsOf.declsOfList l)
+      AllKeep (declsOfTree.declsOfList (l.modify i g)) (declsOfTree.declsOfList l)
   | [], _, _, h, _, _ => by simp at h
   | a :: l, 0, k, h, hv, hk => by
     simp only [List.getElem?_cons_zero, Option.some.injEq] at h
     subst h
-    simp only [List.modify_zero_cons, declsOfKids, hv, declsOf.declsOfList, true_and]
+    simp only [List.modify_zero_cons, declsOfKids, hv, declsOfTree.declsOfList, true_and]
     split
     · exact AllKeep.refl _
     · exact hk.append (AllKeep.refl _)
   | a :: l, i + 1, k, h, hv, hk => by
     simp only [List.getElem?_cons_succ] at h
     obtain ⟨h1, h2⟩ := keep_modify g l i k h hv hk
-    simp only [List.modify_succ_cons, declsOfKids, h1, declsOf.declsOfList, true_and]
+    simp only [List.modify_succ_cons, declsOfKids, h1, declsOfTree.declsOfList, true_and]
     split
     · exact h2
     · exact (AllKeep.refl _).append h2
 
 theorem keep_modifyAt (f : Tree → Tree) : ∀ (q : Path) (x sub : Tree), x.at? q = some sub →
-    (f sub).value = sub.value → AllKeep (declsOf (f sub)) (declsOf sub) →
-    (scopeModifyAt f x q).value = x.value ∧ AllKeep (declsOf (scopeModifyAt f x q)) (declsOf x)
+    (f sub).value = sub.value → AllKeep (declsOfTree (f sub)) (declsOfTree sub) →
+    (scopeModifyAt f x q).value = x.value ∧ AllKeep (declsOfTree (scopeModifyAt f x q)) (declsOfTree x)
   | [], x, sub, h, hv, hk => by
     simp only [Tree.at?, Option.some.injEq] at h
     subst h
@@ -130,13 +130,13 @@ theorem keep_modifyAt (f : Tree → Tree) : ∀ (q : Path) (x sub : Tree), x.at?
       obtain ⟨h1, h2⟩ := keep_modifyAt f q k sub h hv hk
       obtain ⟨h3, h4⟩ := keep_modify (fun k => scopeModifyAt f k q) l i k hki h1 h2
       refine ⟨rfl, ?_⟩
-      simp only [scopeModifyAt, declsOf, nsDecls_node, h3]
+      simp only [scopeModifyAt, declsOfTree, nsDecls_node, h3]
       exact .cons (fun _ h _ => h) h4
 
 /-- `deduplicate_namespaces(node)`, any node: every binding to the no-namespace id stays. -/
 theorem dedup_keeps_undeclarations (env : Env) (t t' : Tree) (path : Path) (sub : Tree)
     (hs : t.at? path = some sub) (hu : UniqueDeclsBelow sub)
-    (h : deduplicateNamespaces env t path = some t') : AllKeep (declsOf t') (declsOf t) := by
+    (h : deduplicateNamespaces env t path = some t') : AllKeep (declsOfTree t') (declsOfTree t) := by
   rw [deduplicateNamespaces_inner env t path sub hs] at h
   simp only [Option.some.injEq] at h
   subst h
